@@ -82,30 +82,45 @@ impl List {
         empty: bool,
         compact: bool,
     ) -> Result<Self, Error> {
-        // The container always has 2^lg_arr slots; a compact image only stores the
-        // `coupon_count` occupied ones, so the restored list keeps room for further updates.
-        if lg_arr > 8 || coupon_count > (1usize << lg_arr) {
+        // A list has a fixed 2^3 slots and is promoted as soon as it becomes full, so a valid
+        // image holds fewer coupons than that. As in the Java and C++ readers the lgArr byte
+        // only tells how many slots an updatable (non-compact) image stores; the restored
+        // list is always the standard size, which the promotion to a set relies on.
+        let list = Self::default();
+        let array_size = list.container.coupons.len();
+        if lg_arr > 8 || coupon_count >= array_size {
             return Err(Error::deserial(format!(
                 "invalid list size: lg_arr {lg_arr}, coupon_count {coupon_count}"
             )));
         }
-        let array_size = 1usize << lg_arr;
-        let stored = if compact { coupon_count } else { array_size };
+        let stored = if compact {
+            coupon_count
+        } else {
+            1usize << lg_arr
+        };
 
         // Read coupons
         let mut coupons = vec![0u32; array_size];
         if !empty && coupon_count > 0 {
-            for (i, coupon) in coupons.iter_mut().take(stored).enumerate() {
-                *coupon = cursor.read_u32_le().map_err(|_| {
+            for i in 0..stored {
+                let coupon = cursor.read_u32_le().map_err(|_| {
                     Error::insufficient_data(format!(
                         "expect {coupon_count} coupons, failed at index {i}"
                     ))
                 })?;
+                // slots beyond the occupied front of an updatable image are empty
+                if let Some(slot) = coupons[..coupon_count].get_mut(i) {
+                    *slot = coupon;
+                }
             }
         }
 
         Ok(Self {
-            container: Container::from_coupons(lg_arr, coupons.into_boxed_slice(), coupon_count),
+            container: Container::from_coupons(
+                list.container.lg_size(),
+                coupons.into_boxed_slice(),
+                coupon_count,
+            ),
         })
     }
 
